@@ -545,6 +545,7 @@ fn fails_same(sc: &C12Scenario, class: &str, refs: &mut RefCache) -> bool {
 pub fn minimise(sc: &C12Scenario, viol: &Violation, refs: &mut RefCache, budget: &mut usize) -> C12Scenario {
     let class = viol.class.clone();
     let mut best = sc.clone();
+    prefill(refs, sc);
     // shrinking stops after a number of attempts or after a wall-clock allowance, whichever
     // comes first (one attempt on a marathon re-runs hundreds of jobs)
     let t0 = Instant::now();
@@ -792,8 +793,23 @@ fn final_class(class: &str, sc: &C12Scenario) -> String {
 // ------------------------------------------------------------------------- replay
 
 /// Re-run a replay/witness file.  Returns Some(detail) when the expected class reproduces.
+/// Canonical runs of all programs of a scenario that the cache does not hold yet, in parallel
+/// (each in its own fresh process): a marathon has hundreds of programs.
+pub fn prefill(refs: &mut RefCache, sc: &C12Scenario) {
+    let mut seen: BTreeSet<String> = refs.map.keys().cloned().collect();
+    let missing: Vec<Program> = sc.programs.iter().filter(|p| seen.insert(program_key(p))).cloned().collect();
+    if missing.len() < 2 {
+        return;
+    }
+    let rs: Vec<JobResult> = par_map(&missing, workers(), |_, p| run_scenario(&canonical_scenario(p, 0)).jobs.pop().unwrap_or_default());
+    for (p, r) in missing.iter().zip(rs.into_iter()) {
+        refs.map.insert(program_key(p), r);
+    }
+}
+
 pub fn replay(sc: &C12Scenario) -> Option<String> {
     let mut refs = RefCache::new();
+    prefill(&mut refs, sc);
     let (_, v) = check_scenario(sc, &mut refs);
     let want = sc.expect.as_ref().map(|e| e.class.clone()).unwrap_or_default();
     for x in &v {
